@@ -67,3 +67,36 @@ REGISTRY = {}
 
 REGISTRY['C02'] = numeric('C02', 'c02_exp.cpp', nq=30000, nt=2000000,
                           rule='exp: ' + RULE_STRATA, assumptions=ASSUME_FP)
+REGISTRY['C03'] = numeric('C03', 'c03_log.cpp', nq=30000, nt=2000000,
+                          rule='log: production routes {independent coefficients in both hemispheres, inverse, exp, exp beyond pi, products of two near-pi '
+                               'rotations about almost the same axis (angle 2pi-eps), Random()} x ' + RULE_STRATA, assumptions=ASSUME_FP)
+REGISTRY['C01'] = numeric('C01', 'c01_group.cpp', nq=20000, nt=1000000,
+                          rule='group law: triples (X,Y,Z) of elements built from independently normalised rotation data in both hemispheres or through exp '
+                               '(incl. beyond pi), Y=X and Y=Identity forced periodically, points up to 1e6; ' + RULE_STRATA, assumptions=ASSUME_FP)
+REGISTRY['C06'] = numeric('C06', 'c06_jac.cpp', nq=8000, nt=400000,
+                          rule='tangent Jacobians and adjoints: ' + RULE_STRATA, assumptions=ASSUME_FP + ['float instantiations are held to 1e-2 only (the property states its bound for double)'])
+
+# ------------------------------------------------------------------------------------------------
+# MANIFEST metadata
+# ------------------------------------------------------------------------------------------------
+ENGINES = [
+    {'name': 'ref-model differential monitor', 'path': '/verif/harness/model.cpp', 'serves_properties': ['C01', 'C02', 'C03', 'C04', 'C05', 'C06'],
+     'kind_free_text': 'independent long-double matrix-Lie-group model (typed-in generators, Taylor expm, Shepperd-based log, FD Jacobians) used as oracle over stratified random workloads under ASan+UBSan'},
+]
+NOT_APPLICABLE = {}
+NOTE_NUM = ('Holds on the executions described in the evidence file, nothing more. Trusted base: the reference model (self-checked at every process start), '
+            'gcc 12 / Eigen 3.4, x86-64 SSE2 arithmetic without FMA contraction. Tolerances are fixed in DESIGN.md section 4 (>=10x the worst error observed on the repaired tree).')
+MANIFEST_META = {
+    'C01': dict(engine='ref-model differential monitor', design_ref='DESIGN.md 4/C01', technique='differential runtime monitor vs independent long-double model under ASan/UBSan',
+                text='Every compose/inverse/identity/act/transform result of ~2e4 (quick) to 1e6 (thorough) stratified operand triples per group is compared with the product / inverse / action of reference matrices built from the coefficient vectors; held-on-observed-executions assurance, which is what a pure numerical function over a continuous domain admits.',
+                note=NOTE_NUM),
+    'C02': dict(engine='ref-model differential monitor', design_ref='DESIGN.md 4/C02', technique='differential runtime monitor vs independent long-double matrix exponential under ASan/UBSan',
+                text='t.exp() is compared with a scaling-and-squaring Taylor expm of the reference hat(t) over the full rotation-magnitude axis (0, denormal, every candidate switch-over +-ulp, dense log sweep, near pi, beyond pi) x independent linear magnitude 0..1e6, all groups, double and float; hat and generators are compared exactly.',
+                note=NOTE_NUM),
+    'C03': dict(engine='ref-model differential monitor', design_ref='DESIGN.md 4/C03', technique='differential runtime monitor over six element-production routes vs model exp/log',
+                text='X.log() is checked (finite, principal, exp_ref(log X)=X, equal to the model logarithm, log(q)=log(-q), t.exp().log()=t) on elements produced by six routes including both quaternion hemispheres and products of near-pi rotations (angle 2pi-eps), which no unit test generates.',
+                note=NOTE_NUM + ' Near pi the tolerance carries the documented conditioning term 16u/(pi-theta).'),
+    'C06': dict(engine='ref-model differential monitor', design_ref='DESIGN.md 4/C06', technique='runtime monitor vs series-defined Jr (augmented expm of ad), model Adj/ad',
+                text='rjac/ljac are compared with sum_k (-ad)^k/(k+1)! evaluated as a block of expm([[-ad,I],[0,0]]) (no small-angle case analysis in the oracle), the inverses with the model inverse and as products, Adj/adj/smallAdj with their definitions on the reference matrices, at the 1e-6 relative bound the property states, densely in (sqrt(eps),1e-2) where the defects were.',
+                note=NOTE_NUM),
+}
